@@ -3673,17 +3673,21 @@ def _spec_mixrow(I, wd, row):
     reasoning about the sum."""
     w = wd.read() if isinstance(wd, Cell) else _val(wd)
     row = _val(row)
+    return _mixrow_fn(I, w, row.sort())(row)
+
+
+def _mixrow_fn(I, w, row_sort):
     cache = I.ghost.setdefault("mixrow", {})
     ent = cache.get(id(w))
     if ent is None:
-        rs = z3.Function(I.namer.fresh("RS"), row.sort(), z3.RealSort())
-        r = z3.Const(I.namer.fresh("q_r"), row.sort())
+        rs = z3.Function(I.namer.fresh("RS"), row_sort, z3.RealSort())
+        r = z3.Const(I.namer.fresh("q_r"), row_sort)
         body = sum_term(I, 0, w.length, lambda k: to_real(w.get(k)) *
                         EXPI(I, tbl_col(r, k)))
         I.pc.append(z3.ForAll([r], rs(r) == body, patterns=[rs(r)]))
         ent = (rs, w)
         cache[id(w)] = ent
-    return ent[0](row)
+    return ent[0]
 
 
 def as_term(I, v):
@@ -3959,3 +3963,47 @@ def _data_loader(I, dataset, batch_size=1, shuffle=False, **kw):
         I.oblige(f"dataloader_batch_size@{I.cur_line}", to_int(b) >= 1,
                  "lib_requires")
     return Opaque("DataLoader")
+
+
+@lib("spec.lemma_sum_single")
+def _lemma_sum_single(I, t):
+    """Lean: sum_single_ico -- a range of length one"""
+    lam, lo, hi = _sum_parts(t)
+    I.stats.lib_used.add("lemma:sum_single")
+    return z3.Implies(z3.And(0 <= lo, hi == lo + 1), t == lam_at(lam, lo))
+
+
+@lib("spec.lemma_mixrow_single")
+def _lemma_mixrow_single(I, wd):
+    """the weighted mixture over ONE proposal is that proposal's term
+    (Lean: sum_single_ico), for every row"""
+    w = wd.read() if isinstance(wd, Cell) else _val(wd)
+    rs = _mixrow_fn(I, w, usort("QRow"))
+    r = z3.Const(I.namer.fresh("q_r"), rs.domain(0))
+    I.stats.lib_used.add("lemma:sum_single")
+    w0 = to_real(w.get(0))
+    e0 = EXPI(I, tbl_col(r, 0))
+    # (second conjunct: the unit weight spelt out, so that no product of two
+    # uninterpreted terms is left for the arithmetic solver)
+    return z3.Implies(to_int(w.length) == 1, z3.ForAll(
+        [r], z3.And(rs(r) == w0 * e0, z3.Implies(w0 == 1, rs(r) == e0)),
+        patterns=[rs(r)]))
+
+
+_np_ones_1d = LIB["numpy.ones"].fn
+
+
+@lib("numpy.ones")
+def _np_ones2(I, shape, dtype=None, **kw):
+    if isinstance(shape, (list, tuple)) and len(shape) == 2 and \
+            dtype is None and not kw:
+        n, m = shape
+        f, seq = _fresh_tbl(I, n, "ones")
+        j = z3.Int(I.namer.fresh("q_j"))
+        i = z3.Int(I.namer.fresh("q_i"))
+        I.assume(forall_idx(I, n, lambda q: tbl_ncol(f(q)) == to_int(m)))
+        I.assume(z3.ForAll([i, j], z3.Implies(
+            z3.And(0 <= i, i < to_int(n), 0 <= j, j < to_int(m)),
+            tbl_col(f(i), j) == 1), patterns=[tbl_col(f(i), j)]))
+        return Cell("arr", seq)
+    return _np_ones_1d(I, shape, dtype, **kw)
